@@ -115,8 +115,8 @@ def fuzz(ctx):
     for target in ("FuzzRead", "FuzzJSON"):
         cache = os.path.join(C.BUILD, "fuzzcache")
         os.makedirs(cache, exist_ok=True)
-        rc, out = C.sh(["go", "test", "-modfile", mod, "-tags", "verif", "-run", "^$", "-fuzz", "^%s$" % target, "-fuzztime", "90s",
-                        "-test.fuzzcachedir", cache, "./cmd/c06/"], cwd=h, timeout=900)
+        rc, out = C.sh(["go", "test", "-modfile", mod, "-tags", "verif", "./cmd/c06/", "-run", "^$", "-fuzz", "^%s$" % target,
+                        "-fuzztime", os.environ.get("C06_FUZZTIME", "90s"), "-test.fuzzcachedir", cache], cwd=h, timeout=1200)
         ctx.log("fuzz " + target, out[-3000:])
         execs = 0
         for line in out.splitlines():
@@ -126,7 +126,10 @@ def fuzz(ctx):
                 except ValueError:
                     pass
         res[target] = {"rc": rc, "execs": execs}
-        if rc != 0 and "panic" in out.lower() or "--- FAIL" in out:
+        crasher = "--- FAIL" in out or "Failing input written" in out
+        if rc != 0 and not crasher:
+            ctx.diag.append("go test -fuzz %s could not run (rc=%d): %s" % (target, rc, out[-300:]))
+        if crasher:
             key = "fuzz:" + target
             for line in out.splitlines():
                 if "github.com/moov-io/ach" in line and "(" in line:
